@@ -6,6 +6,26 @@ ALL = ["C%02d" % i for i in range(1, 21)]
 
 # id -> (category, technique, level text, level note, design section)
 CHECKS = {
+ "C04": ("translation_validation",
+         "run-time translation validation of every merge performed: canonical dump of the merged segment vs dumps of the sources' live documents; forced merge-thread schedules through the monitoring Directory checked against the sequential model",
+         "Each merge actually executed (IndexWriter::merge on 1-6 segments with/without deletes, fully deleted sources, big/small stores, sorted or not; merge_indices) is validated as a translation: stored document, field norm, every fast-field value and every (term, tf, positions) of every live source document reappear unchanged, each source contiguous and in order (or the output in sort order). Forced schedules park the merge thread at its k-th storage operation while deletes+commits, rollbacks, other merges, GC or writer drop happen; afterwards the searcher equals the sequential model. Held on the merges and schedules executed only.",
+         "Trusted: dump.rs (reads through the public SegmentReader API); source dumps are taken at a quiescent committed state.",
+         "DESIGN.md §7 C04"),
+ "C11": ("fault_enumeration",
+         "fault injection at storage operations selected from the fault-free run of the same history (role x op x file kind x occurrence; once/permanent/dead), each scenario in its own child process with watchdog, CPU-progress test and gdb stacks",
+         "For every executed scenario: a failed commit took effect completely or not at all, every commit that returned Ok is recoverable from the durable image at its return, after faults stop the storage holds exactly the last successful commit and a new writer can add and commit, the child neither died by signal nor hung. Fault points are those that occur in the executed histories (sampled in quick, broader in thorough); error kinds are not varied.",
+         "Trusted: MonDir's fault injection and durability model; the sequential model; hang = 60 s watchdog and no CPU progress.",
+         "DESIGN.md §7 C11"),
+ "C17": ("exploration",
+         "runtime monitoring: monotonicity monitor over every segment of every searcher + sequential model + per-document canonical dump equality across merges, on histories under IndexSettings::sort_by_field",
+         "Held on the histories executed over six sort-field types x two directions with duplicate, missing, extreme and per-transaction-disjoint values, same-transaction deletes, commits, rollbacks, explicit and policy merges: every segment is monotone in the sort key with missing values first (asc) / last (desc), content equals the model and merges preserve every document's dump.",
+         "Trusted: all sort fields are order-preserving functions of one model value; dump.rs; the sequential model.",
+         "DESIGN.md §7 C17"),
+ "C18": ("exploration",
+         "runtime monitoring: generated writer lifecycles on MonDir / RamDirectory / MmapDirectory (incl. concurrent creation bursts, injected worker death and failed rollback, cross-process attempts) against a one-boolean model",
+         "Held on the lifecycles executed: never two live writers, every refusal is a lock error and leaves the live writer able to commit, a writer can always be created after drop / wait_merging_threads / failed construction / worker death / failed rollback + drop, exactly one winner in concurrent bursts.",
+         "Trusted: a writer object that exists counts as alive; flock semantics of the host for MmapDirectory.",
+         "DESIGN.md §7 C18"),
  "C01": ("fault_enumeration",
          "crash-point enumeration over the recorded storage-op log of real runs (monitoring Directory with a visible/durable model), recovery with Index::open compared with the sequential model; online commit-point monitor T1",
          "Every boundary after a mutating storage operation of each executed history is a crash point; at each, the persistence outcomes {nothing pending survives, everything, every M1 prefix, sampled M2 subsets} x {unsynced data lost / complete / random prefix} are materialised and recovered (quick ~2e5 images, thorough millions): recovery succeeds, shows exactly the last acknowledged or the in-flight commit (all fields on a sample, ids always), every referenced file passes its checksum, and the image accepts writer + commit + GC. Enumeration is complete for the boundaries of the executed runs only; other interleavings of the same history are reached by repetition and noise.",
